@@ -2,23 +2,5 @@
 
 package elligator
 
-import "github.com/oasisprotocol/curve25519-voi/internal/field"
-
-// VerifNamedFE is a named field constant.
-type VerifNamedFE struct {
-	Name string
-	FE   field.Element
-}
-
-// VerifC20Constants returns the Elligator 2 constants of the active backend.
-func VerifC20Constants() []VerifNamedFE {
-	return []VerifNamedFE{
-		{"constMONTGOMERY_A", constMONTGOMERY_A},
-		{"constMONTGOMERY_NEG_A", constMONTGOMERY_NEG_A},
-		{"constMONTGOMERY_A_SQUARED", constMONTGOMERY_A_SQUARED},
-		{"constMONTGOMERY_SQRT_NEG_A_PLUS_TWO", constMONTGOMERY_SQRT_NEG_A_PLUS_TWO},
-		{"constMONTGOMERY_U_FACTOR", constMONTGOMERY_U_FACTOR},
-		{"constMONTGOMERY_V_FACTOR", constMONTGOMERY_V_FACTOR},
-		{"constFieldZero", constFieldZero},
-	}
-}
+// VerifC20Reg: accessors looked up by name at run time; one small file per constant registers itself here.
+var VerifC20Reg = map[string]interface{}{}
